@@ -96,7 +96,7 @@ def run(replay=None):
         c.model_check("AckGen_MC.tla", "AckGen_MC_hs.cfg", label="hs")
         cases = []
         N = 6
-        for s in c.enumerate("AckGen_Env.tla", {"N": N if not thorough else 7, "L": 4, "Kind": "app"}, timeout=3000)   # L = 5 would be 3.2M sequences: the thorough tier widens the universe instead:
+        for s in c.enumerate("AckGen_Env.tla", {"N": N if not thorough else 7, "L": 4, "Kind": "app"}, timeout=3000):   # L = 5 would be 3.2M sequences: the thorough tier widens the universe instead
             cases.append({"group": "app", "cfg": {"space": "app"}, "ops": [named(o) for o in s]})
         for sp in ("initial", "handshake"):
             for s in c.enumerate("AckGen_Env.tla", {"N": 5, "L": 4 if not thorough else 5, "Kind": "hs"}):
